@@ -593,12 +593,49 @@ async function c04node(listFile) {
             r.detail = { key: k };
             break;
           }
-          // the parser must be usable: validate returns a boolean on a plain value
-          const v = p.validate(null);
-          if (typeof v !== "boolean") {
+          // the parser must be usable: validate returns a boolean on plain values, and the other
+          // entry points either work or fail with one of the runtime's own errors - never with a
+          // TypeError / ReferenceError / SyntaxError from the emitted tables
+          const probes = [null, undefined, {}, [], "x", "", 0, -0, 1.5, true, { a: 1, kind: "k0", f0: "lit" }, [1, "a"], new Date(0)];
+          let bad = null;
+          for (const val of probes) {
+            try {
+              const v = p.validate(val);
+              if (typeof v !== "boolean") bad = { op: "validate", returned: typeof v };
+              const sp = p.safeParse(val);
+              if (!sp || typeof sp.success !== "boolean" || sp.success !== v) bad = { op: "safeParse", validate: v, safeParse: sp && sp.success };
+            } catch (e) {
+              bad = { op: "validate/safeParse", error: String(e && e.name) + ": " + String(e && e.message).slice(0, 200) };
+            }
+            if (bad) break;
+          }
+          const own = (e) => e instanceof Error && e.constructor === Error;
+          if (!bad) {
+            // parse() legitimately throws a plain Error on an invalid value
+            try {
+              p.parse({});
+            } catch (e) {
+              if (!own(e)) bad = { op: "parse", error: String(e && e.name) + ": " + String(e && e.message).slice(0, 200) };
+            }
+          }
+          if (!bad) {
+            // the other features of a built parser are not part of C04's statement ("builds a parser
+            // for every name requested"): failures with foreign errors are noted, not alarmed
+            for (const [name, f] of [["schema", () => p.schema()], ["describe", () => p.describe()], ["hash", () => p.hash()], ["hash256", () => p.hash256()]]) {
+              try {
+                f();
+              } catch (e) {
+                if (!(own(e) && name === "schema")) {
+                  r.notes = r.notes || [];
+                  r.notes.push({ key: k, op: name, error: String(e && e.name) + ": " + String(e && e.message).slice(0, 120) });
+                }
+              }
+            }
+          }
+          if (bad) {
             r.ok = false;
-            r.class = "module-parser-validate-not-boolean";
-            r.detail = { key: k };
+            r.class = "module-parser-fails-when-used";
+            r.detail = { key: k, ...bad };
             break;
           }
         }
